@@ -259,6 +259,14 @@ def run_orchestrated(case, algo, params, nagents, dist_kind, seed, timeout=20.0,
         return r
 
     Messaging.post_msg, Messaging.next_msg = post_msg, next_msg
+    live_agents = []
+    orig_agent_init = agents_mod.Agent.__init__
+
+    def recording_init(self, *a, **k):
+        orig_agent_init(self, *a, **k)
+        live_agents.append(self)
+
+    agents_mod.Agent.__init__ = recording_init
     orig_on_start = agents_mod.Agent._on_start
     if start_delays:
         drng = _r.Random(seed + 99)
@@ -340,6 +348,21 @@ def run_orchestrated(case, algo, params, nagents, dist_kind, seed, timeout=20.0,
         drv.join(watchdog)
         if drv.is_alive():
             out["watchdog"] = True
+            # logical evidence rather than the clock: is every agent idle with an empty queue, twice in a row ?
+            def snapshot_idle():
+                st = []
+                for ag in live_agents:
+                    try:
+                        st.append((ag.name, ag.t.is_alive(), ag._messaging._queue.qsize(), ag._messaging.msg_queue_count))
+                    except Exception:
+                        st.append((getattr(ag, "name", "?"), None, None, None))
+                return st
+
+            s1 = snapshot_idle()
+            time.sleep(1.5)
+            s2 = snapshot_idle()
+            out["blocked_while_quiescent"] = bool(s1) and s1 == s2 and all(q == 0 for (_, alive_, q, _) in s2 if alive_)
+            out["blocked_state"] = s2
             alive = [t.name for t in threading.enumerate() if t.name.startswith("thread_")]
             out["errors"].append("harness watchdog: driver still blocked after %s s (agent threads alive: %r)" % (watchdog, alive))
         out["errors"] += err
@@ -351,6 +374,7 @@ def run_orchestrated(case, algo, params, nagents, dist_kind, seed, timeout=20.0,
         per.stop()
         Messaging.post_msg, Messaging.next_msg = orig_post, orig_next
         agents_mod.Agent._on_start = orig_on_start
+        agents_mod.Agent.__init__ = orig_agent_init
         if orch is not None:
             try:
                 if getattr(orch, "_timeout_timer", None):
